@@ -906,12 +906,30 @@ func (p *parser) function() (Node, error) {
 	return nil, &UnknownFunctionError{name}
 }
 
+// argument parses a function argument that must be a value. An expression
+// reference in its place is a type error, not a syntax error.
+func (p *parser) argument(name string) (Node, error) {
+	if p.curr.Type != lexer.ExpressionToken {
+		return p.expression(1)
+	}
+
+	if err := p.advance(); err != nil {
+		return nil, err
+	}
+
+	if _, err := p.expression(1); err != nil {
+		return nil, err
+	}
+
+	return nil, &InvalidFunctionArgumentError{name, "value"}
+}
+
 func (p *parser) function1Arg(name string) (Node, error) {
 	if p.curr.Type == lexer.CloseParenToken {
 		return nil, &InvalidFunctionCallError{name}
 	}
 
-	arg, err := p.expression(1)
+	arg, err := p.argument(name)
 	if err != nil {
 		return nil, err
 	}
@@ -936,7 +954,7 @@ func (p *parser) function1To2Arg(name string) (Node, Node, error) {
 		return nil, nil, &InvalidFunctionCallError{name}
 	}
 
-	arg1, err := p.expression(1)
+	arg1, err := p.argument(name)
 	if err != nil {
 		return nil, nil, err
 	}
@@ -957,7 +975,7 @@ func (p *parser) function1To2Arg(name string) (Node, Node, error) {
 		return nil, nil, err
 	}
 
-	arg2, err := p.expression(1)
+	arg2, err := p.argument(name)
 	if err != nil {
 		return nil, nil, err
 	}
@@ -982,7 +1000,7 @@ func (p *parser) function2Arg(name string) (Node, Node, error) {
 		return nil, nil, &InvalidFunctionCallError{name}
 	}
 
-	arg1, err := p.expression(1)
+	arg1, err := p.argument(name)
 	if err != nil {
 		return nil, nil, err
 	}
@@ -999,7 +1017,7 @@ func (p *parser) function2Arg(name string) (Node, Node, error) {
 		return nil, nil, err
 	}
 
-	arg2, err := p.expression(1)
+	arg2, err := p.argument(name)
 	if err != nil {
 		return nil, nil, err
 	}
@@ -1024,7 +1042,7 @@ func (p *parser) function2ExpArg(name string) (Node, Node, error) {
 		return nil, nil, &InvalidFunctionCallError{name}
 	}
 
-	arg1, err := p.expression(1)
+	arg1, err := p.argument(name)
 	if err != nil {
 		return nil, nil, err
 	}
@@ -1095,7 +1113,7 @@ func (p *parser) function2MapArg(name string) (Node, Node, error) {
 		return nil, nil, err
 	}
 
-	arg2, err := p.expression(1)
+	arg2, err := p.argument(name)
 	if err != nil {
 		return nil, nil, err
 	}
@@ -1120,7 +1138,7 @@ func (p *parser) function2To3Arg(name string) (Node, Node, Node, error) {
 		return nil, nil, nil, &InvalidFunctionCallError{name}
 	}
 
-	arg1, err := p.expression(1)
+	arg1, err := p.argument(name)
 	if err != nil {
 		return nil, nil, nil, err
 	}
@@ -1137,7 +1155,7 @@ func (p *parser) function2To3Arg(name string) (Node, Node, Node, error) {
 		return nil, nil, nil, err
 	}
 
-	arg2, err := p.expression(1)
+	arg2, err := p.argument(name)
 	if err != nil {
 		return nil, nil, nil, err
 	}
@@ -1158,7 +1176,7 @@ func (p *parser) function2To3Arg(name string) (Node, Node, Node, error) {
 		return nil, nil, nil, err
 	}
 
-	arg3, err := p.expression(1)
+	arg3, err := p.argument(name)
 	if err != nil {
 		return nil, nil, nil, err
 	}
@@ -1183,7 +1201,7 @@ func (p *parser) function2To4Arg(name string) (Node, Node, Node, Node, error) {
 		return nil, nil, nil, nil, &InvalidFunctionCallError{name}
 	}
 
-	arg1, err := p.expression(1)
+	arg1, err := p.argument(name)
 	if err != nil {
 		return nil, nil, nil, nil, err
 	}
@@ -1200,7 +1218,7 @@ func (p *parser) function2To4Arg(name string) (Node, Node, Node, Node, error) {
 		return nil, nil, nil, nil, err
 	}
 
-	arg2, err := p.expression(1)
+	arg2, err := p.argument(name)
 	if err != nil {
 		return nil, nil, nil, nil, err
 	}
@@ -1221,7 +1239,7 @@ func (p *parser) function2To4Arg(name string) (Node, Node, Node, Node, error) {
 		return nil, nil, nil, nil, err
 	}
 
-	arg3, err := p.expression(1)
+	arg3, err := p.argument(name)
 	if err != nil {
 		return nil, nil, nil, nil, err
 	}
@@ -1242,7 +1260,7 @@ func (p *parser) function2To4Arg(name string) (Node, Node, Node, Node, error) {
 		return nil, nil, nil, nil, err
 	}
 
-	arg4, err := p.expression(1)
+	arg4, err := p.argument(name)
 	if err != nil {
 		return nil, nil, nil, nil, err
 	}
@@ -1267,7 +1285,7 @@ func (p *parser) function3To4Arg(name string) (Node, Node, Node, Node, error) {
 		return nil, nil, nil, nil, &InvalidFunctionCallError{name}
 	}
 
-	arg1, err := p.expression(1)
+	arg1, err := p.argument(name)
 	if err != nil {
 		return nil, nil, nil, nil, err
 	}
@@ -1284,7 +1302,7 @@ func (p *parser) function3To4Arg(name string) (Node, Node, Node, Node, error) {
 		return nil, nil, nil, nil, err
 	}
 
-	arg2, err := p.expression(1)
+	arg2, err := p.argument(name)
 	if err != nil {
 		return nil, nil, nil, nil, err
 	}
@@ -1301,7 +1319,7 @@ func (p *parser) function3To4Arg(name string) (Node, Node, Node, Node, error) {
 		return nil, nil, nil, nil, err
 	}
 
-	arg3, err := p.expression(1)
+	arg3, err := p.argument(name)
 	if err != nil {
 		return nil, nil, nil, nil, err
 	}
@@ -1322,7 +1340,7 @@ func (p *parser) function3To4Arg(name string) (Node, Node, Node, Node, error) {
 		return nil, nil, nil, nil, err
 	}
 
-	arg4, err := p.expression(1)
+	arg4, err := p.argument(name)
 	if err != nil {
 		return nil, nil, nil, nil, err
 	}
@@ -1349,7 +1367,7 @@ func (p *parser) functionVarArg(name string) ([]Node, error) {
 
 	var nodes []Node
 	for {
-		node, err := p.expression(1)
+		node, err := p.argument(name)
 		if err != nil {
 			return nil, err
 		}
